@@ -204,17 +204,67 @@ def coq_eval(imports, exprs, tag, shard=250, timeout=900):
 			failed = (name, out)
 		results[name] = out
 	del procs
-	if failed:
-		keep = work / f'{failed[0]}.v'
-		raise RuntimeError(f'model evaluation failed for {keep}:\n{failed[1][-3000:]}')
+	single = {}
+	for k, name in enumerate(names):
+		out = results[name]
+		if 'Eval vm_compute' in out or '= [' in out:
+			continue
+		if re.search(r'^Error:(?! Stack overflow| Out of memory)', out, re.M) and 'Stack overflow' not in out and 'Out of memory' not in out:
+			raise RuntimeError(f'model evaluation failed for {work / (name + ".v")}:\n{out[-3000:]}')
+		# the shard died of resources (killed, timed out, stack / memory): evaluate its expressions one by one under a short limit; the
+		# ones that still cannot be evaluated answer the out-of-fuel value of the models (callers count them as exhausted or as a difference)
+		single[name] = _eval_one_by_one(imports, exprs[k * shard:(k + 1) * shard], work, name)
 	values = []
 	for k, name in enumerate(names):
+		if name in single:
+			values += single[name]
+			continue
 		found = [m.group(1).replace('""', '"') for m in _STRING_RE.finditer(results[name])]
 		expected = len(exprs[k * shard:(k + 1) * shard])
 		if len(found) != expected:
 			raise RuntimeError(f'model evaluation of {name} produced {len(found)} strings, expected {expected}:\n{results[name][:2000]}')
 		values += found
 	shutil.rmtree(work)
+	return values
+
+
+MODEL_EXHAUSTED = 'crash:OutOfFuel:model-resources'
+
+
+def _limited_coqc():
+	import resource
+	_unlimited_stack()
+	resource.setrlimit(resource.RLIMIT_AS, (8 << 30, 8 << 30))
+
+
+def _eval_one_by_one(imports, exprs, work, name):
+	values = []
+	jobs = []
+	for index, expr in enumerate(exprs):
+		path = work / f'{name}_single_{index}.v'
+		path.write_text(f'{imports}\nOpen Scope string_scope.\nSet Printing Width 1000000.\nSet Printing Depth 10000000.\n'
+			f'Definition out : list string := [\n  ({expr})\n].\nEval vm_compute in out.\n', encoding='utf8')
+		jobs.append(path)
+	running = []
+	outputs = {}
+	pending = list(enumerate(jobs))
+	while pending or running:
+		while pending and len(running) < NCPU:
+			index, path = pending.pop(0)
+			running.append((index, subprocess.Popen(['timeout', '120', 'coqc', '-Q', str(COQ), 'Symv', str(path)],
+				stdout=subprocess.PIPE, stderr=subprocess.STDOUT, text=True, preexec_fn=_limited_coqc)))
+		index, proc = running.pop(0)
+		out, _ = proc.communicate()
+		outputs[index] = (proc.returncode, out)
+	for index in range(len(exprs)):
+		status, out = outputs[index]
+		found = [m.group(1).replace('""', '"') for m in _STRING_RE.finditer(out)] if status == 0 else []
+		if len(found) == 1:
+			values.append(found[0])
+		elif status != 0 and re.search(r'^Error:', out, re.M) and 'Stack overflow' not in out and 'Out of memory' not in out:
+			raise RuntimeError(f'model evaluation failed for {jobs[index]}:\n{out[-3000:]}')
+		else:
+			values.append(MODEL_EXHAUSTED)
 	return values
 
 
